@@ -186,3 +186,16 @@ chk("C13", "exploration",
     "namespaces, round trips) may not change anything observable even in the registry they go through. add/define_unit on the "
     "default registry are legitimate writers and are not exercised.",
     "Hypothesis-generated operation interleavings with per-registry digest invariants (stateful / model-based)", "DESIGN.md §3 C13")
+chk("C20", "exploration",
+    "Hypothesis: valid expressions from the AST grammar over all table names in ~12 equivalent spellings each (spacing, parentheses, "
+    "unit factors, float vs rational exponents, unicode vs ASCII signs) must give equal units; units obtained by unit arithmetic "
+    "(products, quotients, powers, simplify, print-simplify-print histories, custom registry) are printed with str/repr, re-parsed "
+    "and pickled and must come back equal (identical expression and hash without a coefficient); token-level mutations with ~120 "
+    "hazard tokens must end in a Unit or UnitParseError. Exhaustive: str/repr round trip of every atomic and prefixed name; ~80 "
+    "non-vocabulary Python constructs that must be refused; ~75 strings that raise during evaluation. Every parse runs under an "
+    "audit hook with canaries (file creation, builtins). thorough adds a 10-minute coverage-guided atheris/libFuzzer campaign on "
+    "Unit(str) with the same oracle inside the target.",
+    "Termination is not decided (liveness): numeric power towers are capped in the generators and a watchdog kills wedged workers; "
+    "a timeout is inconclusive. Audit events of the parser's own activity (compile/exec/getattr, imports of sympy/stdlib parsing "
+    "modules, source lookups for tracebacks) are allowed.",
+    "grammar-based generation + printer round trip + token mutation (Hypothesis) and coverage-guided fuzzing (atheris)", "DESIGN.md §3 C20")
